@@ -84,6 +84,16 @@ func (e *Engine) loopHead(st *State, fr *Frame, li *loopInfo) (stop bool) {
 		}
 		st.cellv[cell] = e.freshVal(st, cell.T, a.Comment)
 	}
+	// map iterations driven by this loop: the set of keys already yielded is arbitrary (the invariants say what is known)
+	for b := range li.blocks {
+		for _, in := range b.Instrs {
+			if nx, ok := in.(*ssa.Next); ok {
+				if r, ok := fr.regs[nx.Iter].(*VRange); ok {
+					e.setHeap(st, r.Heap, e.fresh("visited", RowB))
+				}
+			}
+		}
+	}
 	// havoc heaps per the loop's modifies clauses
 	preHeaps := copyHeaps(st.heaps)
 	pre := &specCtx{e: e, st: st, env: map[string]Val{}, oldEnv: ctx0.oldEnv, heaps: preHeaps, oldHeaps: st.old, fr: fr, pos: li.pos, iter: Zero, pkg: fr.fn.Pkg}
